@@ -489,6 +489,66 @@ def «free_completion» : Stmt :=
   block [(.assign "completion" (.parent (.var "ref") "ref")), (.prim none (.ext "free") [.var "completion"])]
 def «free_completion.params» : List String := ["ref"]
 
+/-- `call_rcu_before_fork` (src/urcu-call-rcu-impl.h) -/
+def «call_rcu_before_fork» : Stmt :=
+  block [(.prim (some "_t1") (.ext "_rcu_read_ongoing") []), (.assign "was_online" (.var "_t1")), (.ifte (.var "was_online") (.prim none (.ext "rcu_thread_offline") []) (.skip)), (.call none ["pmp"] [.addrGlob "call_rcu_mutex"] «call_rcu_lock»), (.assign "atfork" (.pload (.addrGlob "registered_rculfhash_atfork"))), (.ifte (.var "atfork") (.prim none (.ext "(*before_fork)") [.pload (.fieldAddr (.var "atfork") "before_fork"), .pload (.fieldAddr (.var "atfork") "priv")]) (.skip)), (.prim (some "_t2") (.ext "cds_list_for_each_entry.first") [.addrGlob "call_rcu_data_list"]), (.loop (block [(.assign "crdp" (.var "_t2")), (.ifte (.var "crdp") (.skip) (.brk)), (.prim (some "_t2") (.ext "cds_list_for_each_entry.next") ([.addrGlob "call_rcu_data_list"] ++ [.var "crdp"])), (.prim none .uor [.fieldAddr (.var "crdp") "flags", .cst "URCU_CALL_RCU_PAUSE" (16), .cst "CMM_RELAXED" (0)]), (.prim none .barrier []), (.call none ["crdp"] [.var "crdp"] «wake_call_rcu_thread»)])), (.prim (some "_t3") (.ext "cds_list_for_each_entry.first") [.addrGlob "call_rcu_data_list"]), (.loop (block [(.assign "crdp" (.var "_t3")), (.ifte (.var "crdp") (.skip) (.brk)), (.prim (some "_t3") (.ext "cds_list_for_each_entry.next") ([.addrGlob "call_rcu_data_list"] ++ [.var "crdp"])), (.loop (block [(.prim (some "_t4") .uload [.fieldAddr (.var "crdp") "flags", .cst "CMM_RELAXED" (0)]), (.ifte (.bin .eq (.bin .band (.var "_t4") (.cst "URCU_CALL_RCU_PAUSED" (32))) (.lit 0)) (.prim none (.ext "poll") [.null, .lit 0, .lit 1]) (.brk))]))])), (.ifte (.var "was_online") (.prim none (.ext "rcu_thread_online") []) (.skip))]
+def «call_rcu_before_fork.params» : List String := []
+
+/-- `call_rcu_after_fork_parent` (src/urcu-call-rcu-impl.h) -/
+def «call_rcu_after_fork_parent» : Stmt :=
+  block [(.prim (some "_t1") (.ext "cds_list_for_each_entry.first") [.addrGlob "call_rcu_data_list"]), (.loop (block [(.assign "crdp" (.var "_t1")), (.ifte (.var "crdp") (.skip) (.brk)), (.prim (some "_t1") (.ext "cds_list_for_each_entry.next") ([.addrGlob "call_rcu_data_list"] ++ [.var "crdp"])), (.prim none .uand [.fieldAddr (.var "crdp") "flags", .cst "NOT_URCU_CALL_RCU_PAUSE" (18446744073709551599), .cst "CMM_SEQ_CST" (5)])])), (.prim (some "_t2") (.ext "cds_list_for_each_entry.first") [.addrGlob "call_rcu_data_list"]), (.loop (block [(.assign "crdp" (.var "_t2")), (.ifte (.var "crdp") (.skip) (.brk)), (.prim (some "_t2") (.ext "cds_list_for_each_entry.next") ([.addrGlob "call_rcu_data_list"] ++ [.var "crdp"])), (.loop (block [(.prim (some "_t3") .uload [.fieldAddr (.var "crdp") "flags", .cst "CMM_RELAXED" (0)]), (.ifte (.bin .ne (.bin .band (.var "_t3") (.cst "URCU_CALL_RCU_PAUSED" (32))) (.lit 0)) (.prim none (.ext "poll") [.null, .lit 0, .lit 1]) (.brk))]))])), (.assign "atfork" (.pload (.addrGlob "registered_rculfhash_atfork"))), (.ifte (.var "atfork") (.prim none (.ext "(*after_fork_parent)") [.pload (.fieldAddr (.var "atfork") "after_fork_parent"), .pload (.fieldAddr (.var "atfork") "priv")]) (.skip)), (.call none ["pmp"] [.addrGlob "call_rcu_mutex"] «call_rcu_unlock»)]
+def «call_rcu_after_fork_parent.params» : List String := []
+
+/-- `call_rcu_data_init` (src/urcu-call-rcu-impl.h) -/
+def «call_rcu_data_init» : Stmt :=
+  block [(.prim (some "_t1") (.ext "malloc") [.cst "SIZEOF_struct_call_rcu_data" (128)]), (.assign "crdp" (.var "_t1")), (.ifte (.bin .eq (.var "crdp") (.null)) (block [(.prim (some "_t2") (.ext "errno") []), (.prim none (.ext "urcu_die") [.var "_t2"])]) (.skip)), (.prim none (.ext "memset") [.var "crdp", .lit 0, .cst "SIZEOF_struct_call_rcu_data" (128)]), (.call none ["head", "tail"] [.fieldAddr (.var "crdp") "cbs_head", .fieldAddr (.var "crdp") "cbs_tail"] «_cds_wfcq_init»), (.assign "_t3" (.lit 0)), (.pstore (.fieldAddr (.var "crdp") "qlen") (.var "_t3")), (.assign "_t4" (.lit 0)), (.pstore (.fieldAddr (.var "crdp") "futex") (.var "_t4")), (.assign "_t5" (.var "flags")), (.pstore (.fieldAddr (.var "crdp") "flags") (.var "_t5")), (.prim none (.ext "cds_list_add") [.fieldAddr (.var "crdp") "list", .addrGlob "call_rcu_data_list"]), (.assign "_t6" (.var "cpu_affinity")), (.pstore (.fieldAddr (.var "crdp") "cpu_affinity") (.var "_t6")), (.assign "_t7" (.lit 0)), (.pstore (.fieldAddr (.var "crdp") "gp_count") (.var "_t7")), (.prim none (.ext "rcu_set_pointer") [.var "crdpp", .var "crdp"]), (.prim (some "_t8") (.ext "sigfillset") [.addrGlob "&newmask"]), (.assign "ret" (.var "_t8")), (.prim (some "_t9") (.ext "pthread_sigmask") [.cst "SIG_BLOCK" (0), .addrGlob "&newmask", .addrGlob "&oldmask"]), (.assign "ret" (.var "_t9")), (.prim (some "_t10") (.ext "pthread_create") [.fieldAddr (.var "crdp") "tid", .null, .addrGlob "call_rcu_thread", .var "crdp"]), (.assign "ret" (.var "_t10")), (.ifte (.var "ret") (.prim none (.ext "urcu_die") [.var "ret"]) (.skip)), (.prim (some "_t11") (.ext "pthread_sigmask") [.cst "SIG_SETMASK" (2), .addrGlob "&oldmask", .null]), (.assign "ret" (.var "_t11"))]
+def «call_rcu_data_init.params» : List String := ["crdpp", "flags", "cpu_affinity"]
+
+/-- `get_default_call_rcu_data` (src/urcu-call-rcu-impl.h) -/
+def «get_default_call_rcu_data» : Stmt :=
+  block [(.prim (some "_t1") .uload [.addrGlob "default_call_rcu_data", .cst "CMM_CONSUME" (1)]), (.assign "crdp" (.var "_t1")), (.ifte (.bin .ne (.var "crdp") (.null)) (.ret (some (.var "crdp"))) (.skip)), (.call none ["pmp"] [.addrGlob "call_rcu_mutex"] «call_rcu_lock»), (.ifte (.bin .eq (.pload (.addrGlob "default_call_rcu_data")) (.null)) (.call none ["crdpp", "flags", "cpu_affinity"] [.addrGlob "default_call_rcu_data", .lit 0, .lit (-1)] «call_rcu_data_init») (.skip)), (.assign "crdp" (.pload (.addrGlob "default_call_rcu_data"))), (.call none ["pmp"] [.addrGlob "call_rcu_mutex"] «call_rcu_unlock»), (.ret (some (.var "crdp")))]
+def «get_default_call_rcu_data.params» : List String := []
+
+/-- `cpus_array_len_reset` (src/urcu-call-rcu-impl.h) -/
+def «cpus_array_len_reset» : Stmt :=
+  block [(.assign "_t1" (.lit 0)), (.pstore (.addrGlob "cpus_array_len") (.var "_t1"))]
+def «cpus_array_len_reset.params» : List String := []
+
+/-- `get_call_rcu_thread` (src/urcu-call-rcu-impl.h) -/
+def «get_call_rcu_thread» : Stmt :=
+  .ret (some (.pload (.fieldAddr (.var "crdp") "tid")))
+def «get_call_rcu_thread.params» : List String := ["crdp"]
+
+/-- `_call_rcu_data_free` (src/urcu-call-rcu-impl.h) -/
+def «_call_rcu_data_free» : Stmt :=
+  block [(.ifte (.bin .lor (.bin .eq (.var "crdp") (.null)) (.bin .eq (.var "crdp") (.pload (.addrGlob "default_call_rcu_data")))) (.ret none) (.skip)), (.prim (some "_t1") .uload [.fieldAddr (.var "crdp") "flags", .cst "CMM_RELAXED" (0)]), (.ifte (.bin .eq (.bin .band (.var "_t1") (.cst "URCU_CALL_RCU_STOPPED" (8))) (.lit 0)) (block [(.prim none .uor [.fieldAddr (.var "crdp") "flags", .cst "URCU_CALL_RCU_STOP" (4), .cst "CMM_RELAXED" (0)]), (.call none ["crdp"] [.var "crdp"] «wake_call_rcu_thread»), (.loop (block [(.prim (some "_t2") .uload [.fieldAddr (.var "crdp") "flags", .cst "CMM_RELAXED" (0)]), (.ifte (.bin .eq (.bin .band (.var "_t2") (.cst "URCU_CALL_RCU_STOPPED" (8))) (.lit 0)) (.prim none (.ext "poll") [.null, .lit 0, .lit 1]) (.brk))]))]) (.skip)), (.call none ["pmp"] [.addrGlob "call_rcu_mutex"] «call_rcu_lock»), (.call (some "_t3") ["u_head", "tail"] [.fieldAddr (.var "crdp") "cbs_head", .fieldAddr (.var "crdp") "cbs_tail"] «_cds_wfcq_empty»), (.ifte (.un .lnot (.var "_t3")) (block [(.call none ["pmp"] [.addrGlob "call_rcu_mutex"] «call_rcu_unlock»), (.call none [] [] «get_default_call_rcu_data»), (.call none ["pmp"] [.addrGlob "call_rcu_mutex"] «call_rcu_lock»), (.call none ["dest_q_head", "dest_q_tail", "src_q_head", "src_q_tail"] [.fieldAddr (.pload (.addrGlob "default_call_rcu_data")) "cbs_head", .fieldAddr (.pload (.addrGlob "default_call_rcu_data")) "cbs_tail", .fieldAddr (.var "crdp") "cbs_head", .fieldAddr (.var "crdp") "cbs_tail"] «___cds_wfcq_splice_blocking»), (.prim (some "_t4") .uload [.fieldAddr (.var "crdp") "qlen", .cst "CMM_RELAXED" (0)]), (.prim none .uadd [.fieldAddr (.pload (.addrGlob "default_call_rcu_data")) "qlen", .var "_t4", .cst "CMM_RELAXED" (0)]), (.call none ["crdp"] [.pload (.addrGlob "default_call_rcu_data")] «wake_call_rcu_thread»)]) (.skip)), (.prim none (.ext "cds_list_del") [.fieldAddr (.var "crdp") "list"]), (.call none ["pmp"] [.addrGlob "call_rcu_mutex"] «call_rcu_unlock»), (.ifte (.bin .band (.var "flags") (.cst "CRDF_FLAG_JOIN_THREAD" (1))) (block [(.call (some "_t5") ["crdp"] [.var "crdp"] «get_call_rcu_thread»), (.prim (some "_t6") (.ext "pthread_join") [.var "_t5", .null]), (.assign "ret" (.var "_t6")), (.ifte (.var "ret") (.prim none (.ext "urcu_die") [.var "ret"]) (.skip))]) (.skip)), (.prim none (.ext "free") [.var "crdp"])]
+def «_call_rcu_data_free.params» : List String := ["crdp", "flags"]
+
+/-- `call_rcu_after_fork_child` (src/urcu-call-rcu-impl.h) -/
+def «call_rcu_after_fork_child» : Stmt :=
+  block [(.call none ["pmp"] [.addrGlob "call_rcu_mutex"] «call_rcu_unlock»), (.assign "atfork" (.pload (.addrGlob "registered_rculfhash_atfork"))), (.ifte (.var "atfork") (.prim none (.ext "(*after_fork_child)") [.pload (.fieldAddr (.var "atfork") "after_fork_child"), .pload (.fieldAddr (.var "atfork") "priv")]) (.skip)), (.prim (some "_t1") (.ext "cds_list_empty") [.addrGlob "call_rcu_data_list"]), (.ifte (.var "_t1") (.ret none) (.skip)), (.assign "_t2" (.null)), (.pstore (.addrGlob "default_call_rcu_data") (.var "_t2")), (.call none [] [] «get_default_call_rcu_data»), (.call none [] [] «cpus_array_len_reset»), (.prim none (.ext "free") [.pload (.addrGlob "per_cpu_call_rcu_data")]), (.prim none (.ext "rcu_set_pointer") [.addrGlob "per_cpu_call_rcu_data", .null]), (.assign "_t3" (.null)), (.pstore (.addrTls "thread_call_rcu_data") (.var "_t3")), (.prim (some "_t4") (.ext "cds_list_for_each_entry_safe.first") [.addrGlob "call_rcu_data_list"]), (.loop (block [(.assign "crdp" (.var "_t4")), (.ifte (.var "crdp") (.skip) (.brk)), (.prim (some "_t4") (.ext "cds_list_for_each_entry_safe.next") ([.addrGlob "call_rcu_data_list"] ++ [.var "crdp"])), (.assign "next" (.var "_t4")), (.ifte (.bin .eq (.var "crdp") (.pload (.addrGlob "default_call_rcu_data"))) (.cont) (.skip)), (.prim none .ustore [.fieldAddr (.var "crdp") "flags", .cst "URCU_CALL_RCU_STOPPED" (8), .cst "CMM_RELAXED" (0)]), (.call none ["crdp", "flags"] [.var "crdp", .lit 0] «_call_rcu_data_free»)]))]
+def «call_rcu_after_fork_child.params» : List String := []
+
+/-- `call_rcu_data_free` (src/urcu-call-rcu-impl.h) -/
+def «call_rcu_data_free» : Stmt :=
+  .call none ["crdp", "flags"] [.var "crdp", .cst "CRDF_FLAG_JOIN_THREAD" (1)] «_call_rcu_data_free»
+def «call_rcu_data_free.params» : List String := ["crdp"]
+
+/-- `urcu_workqueue_create_worker` (src/workqueue.c) -/
+def «urcu_workqueue_create_worker» : Stmt :=
+  block [(.assign "_t1" (.bin .band (.pload (.fieldAddr (.var "workqueue") "flags")) (.cst "NOT_URCU_WORKQUEUE_PAUSED" (18446744073709551607)))), (.pstore (.fieldAddr (.var "workqueue") "flags") (.var "_t1")), (.assign "_t2" (.bin .band (.pload (.fieldAddr (.var "workqueue") "flags")) (.cst "NOT_URCU_WORKQUEUE_PAUSE" (18446744073709551611)))), (.pstore (.fieldAddr (.var "workqueue") "flags") (.var "_t2")), (.assign "_t3" (.lit 0)), (.pstore (.fieldAddr (.var "workqueue") "tid") (.var "_t3")), (.prim (some "_t4") (.ext "sigfillset") [.addrGlob "&newmask"]), (.assign "ret" (.var "_t4")), (.prim (some "_t5") (.ext "pthread_sigmask") [.cst "SIG_BLOCK" (0), .addrGlob "&newmask", .addrGlob "&oldmask"]), (.assign "ret" (.var "_t5")), (.prim (some "_t6") (.ext "pthread_create") [.fieldAddr (.var "workqueue") "tid", .null, .addrGlob "workqueue_thread", .var "workqueue"]), (.assign "ret" (.var "_t6")), (.ifte (.var "ret") (.prim none (.ext "urcu_die") [.var "ret"]) (.skip)), (.prim (some "_t7") (.ext "pthread_sigmask") [.cst "SIG_SETMASK" (2), .addrGlob "&oldmask", .null]), (.assign "ret" (.var "_t7"))]
+def «urcu_workqueue_create_worker.params» : List String := ["workqueue"]
+
+/-- `urcu_workqueue_destroy_worker` (src/workqueue.c) -/
+def «urcu_workqueue_destroy_worker» : Stmt :=
+  block [(.prim none .uor [.fieldAddr (.var "workqueue") "flags", .cst "URCU_WORKQUEUE_STOP" (2), .cst "CMM_RELAXED" (0)]), (.call none ["workqueue"] [.var "workqueue"] «wake_worker_thread»), (.prim (some "_t1") (.ext "pthread_join") [.pload (.fieldAddr (.var "workqueue") "tid"), .addrGlob "&retval"]), (.assign "ret" (.var "_t1")), (.ifte (.var "ret") (.prim none (.ext "urcu_die") [.var "ret"]) (.skip)), (.ifte (.bin .ne (.pload (.addrGlob "&retval")) (.null)) (.prim none (.ext "urcu_die") [.cst "EINVAL" (22)]) (.skip)), (.assign "_t2" (.bin .band (.pload (.fieldAddr (.var "workqueue") "flags")) (.cst "NOT_URCU_WORKQUEUE_STOP" (18446744073709551613)))), (.pstore (.fieldAddr (.var "workqueue") "flags") (.var "_t2")), (.assign "_t3" (.lit 0)), (.pstore (.fieldAddr (.var "workqueue") "tid") (.var "_t3")), (.ret (some (.lit 0)))]
+def «urcu_workqueue_destroy_worker.params» : List String := ["workqueue"]
+
+/-- `urcu_workqueue_destroy` (src/workqueue.c) -/
+def «urcu_workqueue_destroy» : Stmt :=
+  block [(.ifte (.bin .eq (.var "workqueue") (.null)) (.ret none) (.skip)), (.call (some "_t1") ["workqueue"] [.var "workqueue"] «urcu_workqueue_destroy_worker»), (.ifte (.var "_t1") (block [(.prim (some "_t2") (.ext "errno") []), (.prim none (.ext "urcu_die") [.var "_t2"])]) (.skip)), (.call (some "_t3") ["u_head", "tail"] [.fieldAddr (.var "workqueue") "cbs_head", .fieldAddr (.var "workqueue") "cbs_tail"] «_cds_wfcq_empty»), (.ifte (.var "_t3") (.skip) (.prim none (.ext "abort") [])), (.prim none (.ext "free") [.var "workqueue"])]
+def «urcu_workqueue_destroy.params» : List String := ["workqueue"]
+
 /-- `workqueue_thread` (src/workqueue.c) -/
 def «workqueue_thread» : Stmt :=
   block [(.assign "workqueue" (.var "arg")), (.prim (some "_t1") .uload [.fieldAddr (.var "workqueue") "flags", .cst "CMM_RELAXED" (0)]), (.assign "rt" (.un .lnot (.un .lnot (.bin .band (.var "_t1") (.cst "URCU_WORKQUEUE_RT" (1)))))), (.call (some "_t2") ["crdp"] [.var "workqueue"] «set_thread_cpu_affinity»), (.ifte (.var "_t2") (block [(.prim (some "_t3") (.ext "errno") []), (.prim none (.ext "urcu_die") [.var "_t3"])]) (.skip)), (.ifte (.pload (.fieldAddr (.var "workqueue") "initialize_worker_fct")) (.prim none (.ext "(*initialize_worker_fct)") [.pload (.fieldAddr (.var "workqueue") "initialize_worker_fct"), .var "workqueue", .pload (.fieldAddr (.var "workqueue") "priv")]) (.skip)), (.ifte (.un .lnot (.var "rt")) (block [(.prim none .udec [.fieldAddr (.var "workqueue") "futex", .cst "CMM_RELAXED" (0)]), (.prim none .mb [])]) (.skip)), (.loop (block [(.call (some "_t4") ["crdp"] [.var "workqueue"] «set_thread_cpu_affinity»), (.ifte (.var "_t4") (block [(.prim (some "_t5") (.ext "errno") []), (.prim none (.ext "urcu_die") [.var "_t5"])]) (.skip)), (.prim (some "_t6") .uload [.fieldAddr (.var "workqueue") "flags", .cst "CMM_RELAXED" (0)]), (.ifte (.bin .band (.var "_t6") (.cst "URCU_WORKQUEUE_PAUSE" (4))) (block [(.ifte (.pload (.fieldAddr (.var "workqueue") "worker_before_pause_fct")) (.prim none (.ext "(*worker_before_pause_fct)") [.pload (.fieldAddr (.var "workqueue") "worker_before_pause_fct"), .var "workqueue", .pload (.fieldAddr (.var "workqueue") "priv")]) (.skip)), (.prim none .barrier []), (.prim none .uor [.fieldAddr (.var "workqueue") "flags", .cst "URCU_WORKQUEUE_PAUSED" (8), .cst "CMM_RELAXED" (0)]), (.loop (block [(.prim (some "_t7") .uload [.fieldAddr (.var "workqueue") "flags", .cst "CMM_RELAXED" (0)]), (.ifte (.bin .ne (.bin .band (.var "_t7") (.cst "URCU_WORKQUEUE_PAUSE" (4))) (.lit 0)) (.prim none (.ext "poll") [.null, .lit 0, .lit 1]) (.brk))])), (.prim none .uand [.fieldAddr (.var "workqueue") "flags", .cst "NOT_URCU_WORKQUEUE_PAUSED" (18446744073709551607), .cst "CMM_SEQ_CST" (5)]), (.prim none .barrier []), (.ifte (.pload (.fieldAddr (.var "workqueue") "worker_after_resume_fct")) (.prim none (.ext "(*worker_after_resume_fct)") [.pload (.fieldAddr (.var "workqueue") "worker_after_resume_fct"), .var "workqueue", .pload (.fieldAddr (.var "workqueue") "priv")]) (.skip))]) (.skip)), (.call none ["head", "tail"] [.addrGlob "&cbs_tmp_head", .addrGlob "&cbs_tmp_tail"] «_cds_wfcq_init»), (.call (some "_t8") ["dest_q_head", "dest_q_tail", "src_q_head", "src_q_tail"] [.addrGlob "&cbs_tmp_head", .addrGlob "&cbs_tmp_tail", .fieldAddr (.var "workqueue") "cbs_head", .fieldAddr (.var "workqueue") "cbs_tail"] «___cds_wfcq_splice_blocking»), (.assign "splice_ret" (.var "_t8")), (.ifte (.bin .ne (.var "splice_ret") (.cst "CDS_WFCQ_RET_SRC_EMPTY" (2))) (block [(.ifte (.pload (.fieldAddr (.var "workqueue") "grace_period_fct")) (.prim none (.ext "(*grace_period_fct)") [.pload (.fieldAddr (.var "workqueue") "grace_period_fct"), .var "workqueue", .pload (.fieldAddr (.var "workqueue") "priv")]) (.skip)), (.assign "cbcount" (.lit 0)), (.call (some "_t11") ["head", "tail"] [.addrGlob "&cbs_tmp_head", .addrGlob "&cbs_tmp_tail"] «___cds_wfcq_first_blocking»), (.assign "_t9" (.var "_t11")), (.loop (block [(.assign "cbs" (.var "_t9")), (.ifte (.var "cbs") (.skip) (.brk)), (.call (some "_t12") ["head", "tail", "node"] [.addrGlob "&cbs_tmp_head", .addrGlob "&cbs_tmp_tail", .var "cbs"] «___cds_wfcq_next_blocking»), (.assign "_t9" (.var "_t12")), (.assign "cbs_tmp_n" (.var "_t9")), (.assign "uwp" (.parent (.var "cbs") "next")), (.prim none (.ext "(*func)") [.pload (.fieldAddr (.var "uwp") "func"), .var "uwp"]), (.assign "_t10" (.var "cbcount")), (.assign "cbcount" (.bin .add (.var "cbcount") (.lit 1)))])), (.prim none .usub [.fieldAddr (.var "workqueue") "qlen", .var "cbcount", .cst "CMM_RELAXED" (0)])]) (.skip)), (.prim (some "_t13") .uload [.fieldAddr (.var "workqueue") "flags", .cst "CMM_RELAXED" (0)]), (.ifte (.bin .band (.var "_t13") (.cst "URCU_WORKQUEUE_STOP" (2))) (.brk) (.skip)), (.ifte (.pload (.fieldAddr (.var "workqueue") "worker_before_wait_fct")) (.prim none (.ext "(*worker_before_wait_fct)") [.pload (.fieldAddr (.var "workqueue") "worker_before_wait_fct"), .var "workqueue", .pload (.fieldAddr (.var "workqueue") "priv")]) (.skip)), (.ifte (.un .lnot (.var "rt")) (block [(.call (some "_t14") ["u_head", "tail"] [.fieldAddr (.var "workqueue") "cbs_head", .fieldAddr (.var "workqueue") "cbs_tail"] «_cds_wfcq_empty»), (.ifte (.var "_t14") (block [(.call none ["futex"] [.fieldAddr (.var "workqueue") "futex"] «futex_wait»), (.prim none .udec [.fieldAddr (.var "workqueue") "futex", .cst "CMM_RELAXED" (0)]), (.prim none .mb [])]) (.skip))]) (block [(.call (some "_t15") ["u_head", "tail"] [.fieldAddr (.var "workqueue") "cbs_head", .fieldAddr (.var "workqueue") "cbs_tail"] «_cds_wfcq_empty»), (.ifte (.var "_t15") (.prim none (.ext "poll") [.null, .lit 0, .lit 10]) (.skip))])), (.ifte (.pload (.fieldAddr (.var "workqueue") "worker_after_wake_up_fct")) (.prim none (.ext "(*worker_after_wake_up_fct)") [.pload (.fieldAddr (.var "workqueue") "worker_after_wake_up_fct"), .var "workqueue", .pload (.fieldAddr (.var "workqueue") "priv")]) (.skip))])), (.ifte (.un .lnot (.var "rt")) (block [(.prim none .mb []), (.prim none .ustore [.fieldAddr (.var "workqueue") "futex", .lit 0, .cst "CMM_RELAXED" (0)])]) (.skip)), (.ifte (.pload (.fieldAddr (.var "workqueue") "finalize_worker_fct")) (.prim none (.ext "(*finalize_worker_fct)") [.pload (.fieldAddr (.var "workqueue") "finalize_worker_fct"), .var "workqueue", .pload (.fieldAddr (.var "workqueue") "priv")]) (.skip)), (.ret (some (.null)))]
@@ -906,5 +966,5 @@ def «bp.urcu_bp_after_fork_child.params» : List String := []
 
 /-- functions the translator could not express in the IR subset (listed, never defaulted) -/
 def untranslated : List String := []
-def translated : List String := ["urcu_memb_smp_mb_slave", "_urcu_memb_read_lock_update", "_urcu_memb_read_lock", "urcu_common_wake_up_gp", "_urcu_memb_read_unlock_update_and_wakeup", "_urcu_memb_read_unlock", "_urcu_memb_read_ongoing", "_urcu_mb_read_lock_update", "_urcu_mb_read_lock", "_urcu_mb_read_unlock_update_and_wakeup", "_urcu_mb_read_unlock", "_urcu_mb_read_ongoing", "urcu_bp_smp_mb_slave", "_urcu_bp_read_lock_update", "_urcu_bp_read_lock", "_urcu_bp_read_unlock", "_urcu_bp_read_ongoing", "_urcu_qsbr_read_lock", "_urcu_qsbr_read_unlock", "_urcu_qsbr_read_ongoing", "urcu_qsbr_wake_up_gp", "_urcu_qsbr_quiescent_state_update_and_wakeup", "_urcu_qsbr_quiescent_state", "_urcu_qsbr_thread_offline", "_urcu_qsbr_thread_online", "___cds_wfs_end", "_cds_wfs_push", "___cds_wfs_node_sync_next", "___cds_wfs_pop", "___cds_wfs_pop_all", "_cds_wfs_empty", "___cds_lfs_empty_head", "_cds_lfs_push", "___cds_lfs_pop", "___cds_lfs_pop_all", "_cds_lfs_empty", "___cds_wfcq_append", "_cds_wfcq_enqueue", "_cds_wfcq_empty", "___cds_wfcq_busy_wait", "___cds_wfcq_node_sync_next", "_cds_wfcq_node_init_atomic", "___cds_wfcq_dequeue_with_state", "___cds_wfcq_splice", "_cds_lfq_enqueue_rcu", "make_dummy", "enqueue_dummy", "rcu_free_dummy", "_cds_lfq_dequeue_rcu", "_cds_lfs_push_rcu", "_cds_lfs_pop_rcu", "_cds_wfq_enqueue", "urcu_ref_get_safe", "urcu_ref_put", "urcu_ref_get_unless_zero", "urcu_wait_add", "urcu_move_waiters", "urcu_wait_set_state", "_cds_wfs_node_init", "urcu_wait_node_init", "urcu_adaptative_wake_up", "urcu_adaptative_busy_wait", "call_rcu_wait", "call_rcu_wake_up", "call_rcu_completion_wait", "call_rcu_completion_wake_up", "wake_call_rcu_thread", "_cds_wfcq_node_init", "_call_rcu", "futex_wait", "futex_wake_up", "wake_worker_thread", "wake_up_defer", "wait_defer", "rcu_defer_barrier_queue", "_rcu_defer_barrier_thread", "rcu_defer_barrier_thread", "_defer_rcu", "_cds_wfs_first", "___cds_wfs_next", "_cds_wfs_next_blocking", "urcu_wake_all_waiters", "set_thread_cpu_affinity", "_cds_wfcq_init", "___cds_wfcq_splice_blocking", "___cds_wfcq_first", "___cds_wfcq_first_blocking", "___cds_wfcq_next", "___cds_wfcq_next_blocking", "call_rcu_thread", "call_rcu", "call_rcu_lock", "urcu_ref_set", "call_rcu_unlock", "rcu_barrier", "_rcu_barrier_complete", "free_completion", "workqueue_thread", "urcu_workqueue_queue_work", "urcu_workqueue_create_completion", "urcu_ref_get", "urcu_workqueue_queue_completion", "urcu_workqueue_wait_completion", "urcu_workqueue_destroy_completion", "urcu_workqueue_flush_queued_work", "urcu_workqueue_pause_worker", "urcu_workqueue_resume_worker", "_urcu_workqueue_wait_complete", "memb.smp_mb_master", "memb.wait_gp", "urcu_common_reader_state", "memb.wait_for_readers", "memb.synchronize_rcu", "memb.rcu_sys_membarrier_status", "memb.rcu_sys_membarrier_init", "memb.rcu_init", "memb.rcu_register_thread", "memb.rcu_unregister_thread", "mb.smp_mb_master", "mb.wait_gp", "mb.wait_for_readers", "mb.synchronize_rcu", "qsbr.wait_gp", "urcu_qsbr_reader_state", "qsbr.wait_for_readers", "qsbr.urcu_qsbr_read_ongoing", "qsbr.urcu_qsbr_thread_offline", "qsbr.urcu_qsbr_thread_online", "qsbr.urcu_qsbr_synchronize_rcu", "qsbr.urcu_qsbr_register_thread", "qsbr.urcu_qsbr_unregister_thread", "lfht.bucket_at", "lfht.lookup_bucket", "lfht.is_bucket", "lfht.is_removed", "lfht.is_removal_owner", "lfht.clear_flag", "lfht.is_end", "lfht.flag_bucket", "lfht._cds_lfht_gc_bucket", "lfht.cds_lfht_next_duplicate", "lfht._cds_lfht_add", "lfht.flag_removal_owner", "lfht._cds_lfht_del", "lfht.flag_removed_or_removal_owner", "lfht._cds_lfht_replace", "lfht.cds_lfht_lookup", "lfht.cds_lfht_next", "lfht.cds_lfht_first", "lfht.cds_lfht_add", "lfht.cds_lfht_add_unique", "lfht.cds_lfht_add_replace", "lfht.cds_lfht_replace", "lfht.cds_lfht_del", "lfht.cds_lfht_is_node_deleted", "poll.urcu_poll_worker_cb", "poll.start_poll_synchronize_rcu", "poll.poll_state_synchronize_rcu", "bp.smp_mb_master", "urcu_bp_reader_state", "bp.wait_for_readers", "bp.urcu_bp_synchronize_rcu", "bp.urcu_bp_sys_membarrier_status", "bp.urcu_bp_sys_membarrier_init", "bp._urcu_bp_init", "bp.chunk_allocation_size", "bp.mremap_wrapper", "bp.expand_arena", "bp.arena_alloc", "bp.add_thread", "bp.urcu_bp_register", "bp.cleanup_thread", "bp.find_chunk", "bp.remove_thread", "bp.urcu_bp_exit", "bp.urcu_bp_unregister", "bp.urcu_bp_prune_registry", "bp.urcu_bp_before_fork", "bp.urcu_bp_after_fork_parent", "bp.urcu_bp_after_fork_child"]
+def translated : List String := ["urcu_memb_smp_mb_slave", "_urcu_memb_read_lock_update", "_urcu_memb_read_lock", "urcu_common_wake_up_gp", "_urcu_memb_read_unlock_update_and_wakeup", "_urcu_memb_read_unlock", "_urcu_memb_read_ongoing", "_urcu_mb_read_lock_update", "_urcu_mb_read_lock", "_urcu_mb_read_unlock_update_and_wakeup", "_urcu_mb_read_unlock", "_urcu_mb_read_ongoing", "urcu_bp_smp_mb_slave", "_urcu_bp_read_lock_update", "_urcu_bp_read_lock", "_urcu_bp_read_unlock", "_urcu_bp_read_ongoing", "_urcu_qsbr_read_lock", "_urcu_qsbr_read_unlock", "_urcu_qsbr_read_ongoing", "urcu_qsbr_wake_up_gp", "_urcu_qsbr_quiescent_state_update_and_wakeup", "_urcu_qsbr_quiescent_state", "_urcu_qsbr_thread_offline", "_urcu_qsbr_thread_online", "___cds_wfs_end", "_cds_wfs_push", "___cds_wfs_node_sync_next", "___cds_wfs_pop", "___cds_wfs_pop_all", "_cds_wfs_empty", "___cds_lfs_empty_head", "_cds_lfs_push", "___cds_lfs_pop", "___cds_lfs_pop_all", "_cds_lfs_empty", "___cds_wfcq_append", "_cds_wfcq_enqueue", "_cds_wfcq_empty", "___cds_wfcq_busy_wait", "___cds_wfcq_node_sync_next", "_cds_wfcq_node_init_atomic", "___cds_wfcq_dequeue_with_state", "___cds_wfcq_splice", "_cds_lfq_enqueue_rcu", "make_dummy", "enqueue_dummy", "rcu_free_dummy", "_cds_lfq_dequeue_rcu", "_cds_lfs_push_rcu", "_cds_lfs_pop_rcu", "_cds_wfq_enqueue", "urcu_ref_get_safe", "urcu_ref_put", "urcu_ref_get_unless_zero", "urcu_wait_add", "urcu_move_waiters", "urcu_wait_set_state", "_cds_wfs_node_init", "urcu_wait_node_init", "urcu_adaptative_wake_up", "urcu_adaptative_busy_wait", "call_rcu_wait", "call_rcu_wake_up", "call_rcu_completion_wait", "call_rcu_completion_wake_up", "wake_call_rcu_thread", "_cds_wfcq_node_init", "_call_rcu", "futex_wait", "futex_wake_up", "wake_worker_thread", "wake_up_defer", "wait_defer", "rcu_defer_barrier_queue", "_rcu_defer_barrier_thread", "rcu_defer_barrier_thread", "_defer_rcu", "_cds_wfs_first", "___cds_wfs_next", "_cds_wfs_next_blocking", "urcu_wake_all_waiters", "set_thread_cpu_affinity", "_cds_wfcq_init", "___cds_wfcq_splice_blocking", "___cds_wfcq_first", "___cds_wfcq_first_blocking", "___cds_wfcq_next", "___cds_wfcq_next_blocking", "call_rcu_thread", "call_rcu", "call_rcu_lock", "urcu_ref_set", "call_rcu_unlock", "rcu_barrier", "_rcu_barrier_complete", "free_completion", "call_rcu_before_fork", "call_rcu_after_fork_parent", "call_rcu_data_init", "get_default_call_rcu_data", "cpus_array_len_reset", "get_call_rcu_thread", "_call_rcu_data_free", "call_rcu_after_fork_child", "call_rcu_data_free", "urcu_workqueue_create_worker", "urcu_workqueue_destroy_worker", "urcu_workqueue_destroy", "workqueue_thread", "urcu_workqueue_queue_work", "urcu_workqueue_create_completion", "urcu_ref_get", "urcu_workqueue_queue_completion", "urcu_workqueue_wait_completion", "urcu_workqueue_destroy_completion", "urcu_workqueue_flush_queued_work", "urcu_workqueue_pause_worker", "urcu_workqueue_resume_worker", "_urcu_workqueue_wait_complete", "memb.smp_mb_master", "memb.wait_gp", "urcu_common_reader_state", "memb.wait_for_readers", "memb.synchronize_rcu", "memb.rcu_sys_membarrier_status", "memb.rcu_sys_membarrier_init", "memb.rcu_init", "memb.rcu_register_thread", "memb.rcu_unregister_thread", "mb.smp_mb_master", "mb.wait_gp", "mb.wait_for_readers", "mb.synchronize_rcu", "qsbr.wait_gp", "urcu_qsbr_reader_state", "qsbr.wait_for_readers", "qsbr.urcu_qsbr_read_ongoing", "qsbr.urcu_qsbr_thread_offline", "qsbr.urcu_qsbr_thread_online", "qsbr.urcu_qsbr_synchronize_rcu", "qsbr.urcu_qsbr_register_thread", "qsbr.urcu_qsbr_unregister_thread", "lfht.bucket_at", "lfht.lookup_bucket", "lfht.is_bucket", "lfht.is_removed", "lfht.is_removal_owner", "lfht.clear_flag", "lfht.is_end", "lfht.flag_bucket", "lfht._cds_lfht_gc_bucket", "lfht.cds_lfht_next_duplicate", "lfht._cds_lfht_add", "lfht.flag_removal_owner", "lfht._cds_lfht_del", "lfht.flag_removed_or_removal_owner", "lfht._cds_lfht_replace", "lfht.cds_lfht_lookup", "lfht.cds_lfht_next", "lfht.cds_lfht_first", "lfht.cds_lfht_add", "lfht.cds_lfht_add_unique", "lfht.cds_lfht_add_replace", "lfht.cds_lfht_replace", "lfht.cds_lfht_del", "lfht.cds_lfht_is_node_deleted", "poll.urcu_poll_worker_cb", "poll.start_poll_synchronize_rcu", "poll.poll_state_synchronize_rcu", "bp.smp_mb_master", "urcu_bp_reader_state", "bp.wait_for_readers", "bp.urcu_bp_synchronize_rcu", "bp.urcu_bp_sys_membarrier_status", "bp.urcu_bp_sys_membarrier_init", "bp._urcu_bp_init", "bp.chunk_allocation_size", "bp.mremap_wrapper", "bp.expand_arena", "bp.arena_alloc", "bp.add_thread", "bp.urcu_bp_register", "bp.cleanup_thread", "bp.find_chunk", "bp.remove_thread", "bp.urcu_bp_exit", "bp.urcu_bp_unregister", "bp.urcu_bp_prune_registry", "bp.urcu_bp_before_fork", "bp.urcu_bp_after_fork_parent", "bp.urcu_bp_after_fork_child"]
 end UrcuVerif.Gen.Src
